@@ -68,6 +68,12 @@ theorem cyclic_service_circular (E : Env) (fuel : Nat) (cf n : String) (cur orig
     applySvc E fuel cf n cur tr = .err "circular" ∨ applySvc E fuel cf n cur tr = .panic fuelMark :=
   applySvc_cyclic E fuel cf n cur tr orig hi hc
 
+/-- the specification side of the cycle oracle: on a cyclic service the executable flatten specification answers
+`chain-too-long` for every bound, and never a value — so the services the `c05.apply` oracle counts as cyclic include
+every cyclic one, and the ones it counts as flattening are exactly the `Flat` ones (`flattenF_iff_flat`) -/
+theorem cyclic_flattenF_too_long (E : Env) (fuel : Nat) (S : KVs) (n : String) (hc : Cyclic E (S, n)) :
+    flattenF E fuel S n = .err "flatten:chain-too-long" := flattenF_cyclic E fuel S n hc
+
 /-! ### non-vacuity -/
 
 /-- `NoCircularEnv`, `FuelFree` hold of the two-file example environment -/
